@@ -52,6 +52,12 @@ Definition mark (now : N) (T : tstate) (D : dmap) : dmap :=
   let top := topl (vis now now D T) in
   fold_left (fun d e => if xlive now now (snd e) && (t_prio (snd e) <? top) then (fst e, true) :: d else d) T D.
 
+(* the same for an accepted packet of [cid] at priority prio: the new unshadowed top is
+   max prio (top of the unshadowed live others); every live other source below it becomes shadowed *)
+Definition mark_others (now top cid : N) (T : tstate) (D : dmap) : dmap :=
+  fold_left (fun d e => if xlive now now (snd e) && (t_prio (snd e) <? top) then (fst e, true) :: d else d)
+            (others cid T) D.
+
 (* text-level step with the shadow flags.  [keep]: the one point the property text leaves open - a packet
    0..19 behind from a source that stopped counting by timeout (does the sequence window still apply?) -
    follows the receiver's decision (true = still applied, packet discarded). *)
@@ -63,9 +69,8 @@ Definition xstep (c : cfg) (now : N) (keep rx_acc : bool) (T : tstate) (D : dmap
     let cid := p_cid p in
     let fresh := mkT frame (p_prio p) now (p_seq p) true in
     let accept :=
-      let T1 := tupd cid fresh T in
-      let D1 := (cid, p_prio p <? topl (vis now now D (others cid T))) :: D in
-      (T1, mark now T1 D1) in
+      let tu := topl (vis now now D (others cid T)) in
+      (tupd cid fresh T, mark_others now (N.max (p_prio p) tu) cid T ((cid, p_prio p <? tu) :: D)) in
     match tlook T cid with
     | Some r =>
       if tlive now r && (behind (t_seq r) (p_seq p) <=? 19) then
@@ -80,6 +85,17 @@ Definition xstep (c : cfg) (now : N) (keep rx_acc : bool) (T : tstate) (D : dmap
 (* more than six sources in a top group: the text does not say which six are merged *)
 Definition over_cap (now : N) (T : tstate) (D : dmap) : bool :=
   (6 <? len (tgroup now T)) || (6 <? len (top_group (vis now now D T))).
+
+(* G_cap: a data packet at the priority of the unshadowed live other sources finds at most five of them
+   (otherwise more than six sources share the top priority and the text does not say which six are
+   merged) *)
+Definition gcap (c : cfg) (now : N) (T : tstate) (D : dmap) (p : pkt) : bool :=
+  match classify c p with
+  | None => true
+  | Some _ =>
+    let L := vis now now D (others (p_cid p) T) in
+    p_term p || negb (p_prio p =? topl L) || (len L <=? 5)
+  end.
 
 Fixpoint list_eqb (a b : list N) : bool :=
   match a, b with
@@ -98,6 +114,27 @@ Definition verdict (merged : bool) (frozen : list N) (now : N) (T : tstate) (D :
   else if list_eqb buf frozen then
     (if list_eqb buf (text_out_unshadowed now T D) then 1 else 2)
   else 3.
+
+(* ------------------------------------------------------------------ the checker loop *)
+(* receiver model, text state, shadow flags and the unshadowed text output of the last merge, side by
+   side.  [is_data] = false: a framing PDU that is not a data PDU (dropped before the merger; no
+   packet for the text either). *)
+Record cst := mkC { k_st : ust; k_T : tstate; k_D : dmap; k_frozen : list N }.
+Definition init_cst : cst := mkC init_ust [] [] [].
+
+Definition is_merge (oc : outcome) : bool := match oc with OMerge _ _ => true | _ => false end.
+
+(* result: new state, receiver outcome, verdict, D4 flag *)
+Definition cstep (c : cfg) (now : N) (k : cst) (is_data : bool) (p : pkt) : cst * outcome * N * bool :=
+  if is_data then
+    let '(st', oc) := handle c now (k_st k) p in
+    let keep := match oc with ODiscard => true | _ => false end in
+    let rx_acc := match oc with OMerge (Some _) _ => true | _ => false end in
+    let '(T', D', d4) := xstep c now keep rx_acc (k_T k) (k_D k) p in
+    let frozen := if is_merge oc then text_out_unshadowed now T' D' else k_frozen k in
+    (mkC st' T' D' frozen, oc, verdict (is_merge oc) frozen now T' D' (u_buf st'), d4)
+  else
+    (k, OIgnore, verdict false (k_frozen k) now (k_T k) (k_D k) (u_buf (k_st k)), false).
 
 (* ------------------------------------------------------------------ Art-Net text level *)
 (* "an Art-Net output port's data is the HTP or LTP merge, per its configured mode, of at most two
